@@ -481,7 +481,7 @@ def reshape_blockwise(
     if len(shape) == x.ndim and shape == x.shape:
         return Array(x.dask, x.name, x.chunks, meta=x)
 
-    outname = "reshape-blockwise-" + tokenize(x, shape)
+    outname = "reshape-blockwise-" + tokenize(x, shape, chunks)
     chunk_tuples = list(product(*(range(len(c)) for i, c in enumerate(x.chunks))))
 
     if len(shape) > x.ndim:
